@@ -264,43 +264,53 @@ def sibling_scans(rnd, acc):
 
 
 def rescans_after_edit(rnd, acc, forced=None):
-    """One tree scanned, some files replaced by other sources IN PLACE with their timestamps restored (a generator
-    with a fixed SOURCE_DATE_EPOCH, cp -p, rsync -t, an archive unpacked over the tree), scanned again at the same
-    path in the same process: the second architecture is judged against the files as they are then."""
+    from .. import lazyscan
+
+    lazyscan.rescan_after_edit(rnd, acc, "C02", {"edge-missing": "C02", "edge-extra": "C02"}, forced=forced)
+
+
+def good_scan_after_failed_scan(rnd, acc, forced=None):
+    """A scan that fails - a file with a syntax error, a relative import that reaches beyond the top-level package: the
+    library raises, which no property objects to - followed, in the same process, by a scan of the repaired tree at the same
+    path: the second architecture is judged against the files as they are then, as if the first call had never happened."""
     import os
 
     from pytestarch import get_evaluable_architecture
 
     if forced:
-        first, second = forced["first"], forced["second"]
+        spec, victim, poison = forced["spec"], forced["victim"], forced["poison"]
     else:
-        first = trees.random_project(rnd, depth=3, imports_per_file=(1, 4), externals=0.0, name_imports=0.2, extras=False)
-        # the same layout with freshly drawn import statements
-        second = {"root": first["root"], "dirs": list(first["dirs"]), "files": dict(first["files"])}
-        files = sorted(f for f in first["files"] if f.endswith(".py"))
+        spec = trees.random_project(rnd, depth=3, imports_per_file=(1, 4), externals=0.0, name_imports=0.2, extras=False)
+        files = sorted(f for f in spec["files"] if f.endswith(".py"))
+        victim = rnd.choice(files)
         mods = [trees.mod_of("proj", f) for f in files if all(p.isidentifier() for p in f[:-3].split("/"))]
-        for f in rnd.sample(files, max(1, len(files) // 2)):
-            me = trees.mod_of("proj", f)
-            cands = [m for m in mods if m != me and not me.startswith(m + ".")]
-            lines = [rnd.choice([f"import {t}", f"from {t} import some_function", f"import {t} as q"]) for t in rnd.sample(cands, min(len(cands), rnd.randint(0, 3)))]
-            second["files"][f] = "\n".join(lines) + "\ndef some_function():\n    return 2\n"
-    case = {"kind": "rescan-after-edit", "first": first, "second": second}
-    root = trees.write_tree(first, sub="RESCAN")
+        others = [m for m in mods if m != trees.mod_of("proj", victim)][:3]
+        head = "".join(f"import {m}\n" for m in others)
+        poison = rnd.choice([
+            head + "from " + "." * (victim.count("/") + 3) + " import nowhere\n" + head,  # beyond the top-level package
+            head + "def broken(:\n    pass\n" + head,  # syntax error
+            head + "import \n" + head,
+        ])
+    case = {"kind": "good-after-failed", "spec": spec, "victim": victim, "poison": poison}
+    broken = {"root": spec["root"], "dirs": list(spec["dirs"]), "files": dict(spec["files"], **{victim: poison})}
+    root = trees.write_tree(broken, sub="FAILED")
     try:
         HUB.case = case
-        get_evaluable_architecture(root, root)
-        for f, src in second["files"].items():
-            if src != first["files"].get(f):
-                p = os.path.join(root, f)
-                st = os.stat(p)
-                with open(p, "w") as fh:
-                    fh.write(src)
-                os.utime(p, ns=(st.st_atime_ns, st.st_mtime_ns))
+        HUB.scan_crash_expected = True
+        try:
+            get_evaluable_architecture(root, root)
+            acc.count("poisoned_trees_that_were_scanned_without_an_error")
+        except Exception as e:  # noqa: BLE001  (expected; whatever it is)
+            acc.hist("failed_scan_exception", type(e).__name__)
+            acc.count("failed_scans_followed_by_a_good_one")
+        finally:
+            HUB.scan_crash_expected = False
+        with open(os.path.join(root, victim), "w", encoding="utf-8") as fh:
+            fh.write(spec["files"][victim])
         get_evaluable_architecture(root, root)
         se = HUB.scan_events[-1]
         attribute_scan_findings(se, {"edge-missing": "C02", "edge-extra": "C02"}, case)
         acc.evaluated(len(se.model.statements) if se.model else 0)
-        acc.count("rescans_after_in_place_edit")
     finally:
         trees.remove_tree(root)
 
@@ -357,6 +367,8 @@ def random_projects(spec, acc):
             rescans_after_edit(rnd, acc)
         if i % 6 == 1:
             back_to_back_variants(rnd, acc)
+        if i % 6 == 4:
+            good_scan_after_failed_scan(rnd, acc)
         if i % 5 == 0:
             # the result of a scan is first used after the tree was removed / rewritten / the working directory changed
             from .. import lazyscan
@@ -449,6 +461,8 @@ def replay(case, acc):
         lazyscan.replay(case, acc, "C02", {"edge-missing": "C02", "edge-extra": "C02"})
     elif case["kind"] == "rescan-after-edit":
         rescans_after_edit(random.Random(0), acc, forced=case)
+    elif case["kind"] == "good-after-failed":
+        good_scan_after_failed_scan(random.Random(0), acc, forced=case)
     elif case["kind"] == "back-to-back":
         back_to_back_variants(random.Random(0), acc, forced=case)
     else:
@@ -478,6 +492,10 @@ def floors(acc, tier):
         why.append("too few projects re-scanned with several level limits in one process")
     if acc.counters["scan_results_first_used_after_a_change"] < 20:
         why.append("too few scan results first used after the tree / the working directory changed")
+    if acc.counters["failed_scans_followed_by_a_good_one"] < 20:
+        why.append(f"only {acc.counters['failed_scans_followed_by_a_good_one']} failed scans followed by a good one")
+    if acc.counters["files_replaced_in_place_with_equal_size_and_time_stamp"] < 20:
+        why.append("too few files replaced in place with equal size and time stamp")
     if acc.counters["scans_judged_after_a_burst_of_back_to_back_scans"] < 100:
         why.append("too few scans judged after a burst of back-to-back scans")
     if acc.counters["scans_judged"] < 20:
